@@ -241,7 +241,7 @@ def finalize(agg):
     if nexc > 0.05 * st.get("runs", 1):
         reasons.append("%d of %d runs raised" % (nexc, st.get("runs", 0)))
     tr = sum(v for k, v in st.items() if k.startswith("exit|") and ("model increase" in k or "multiple constraints" in k))
-    cov = dict(objfun_calls=int(st.get("objfun_calls", 0)), final_checks=int(st.get("final_checks", 0)),
+    cov = dict(evaluations=int(st.get("runs", 0)), objfun_calls=int(st.get("objfun_calls", 0)), final_checks=int(st.get("final_checks", 0)),
                iteration_hooks=int(st.get("iter_hooks", 0)), exits_holding_uninstalled_point=sites,
                trust_region_increase_exit_records=int(tr),
                restarts_seen=dict(soft=int(st.get("soft_restarts", 0)), hard=int(st.get("hard_restarts", 0))),
